@@ -23,14 +23,6 @@ impl From<&str> for Ustr {
     { unimplemented!() }
 }
 
-/// derived Clone of dfa::Inp returns an equal value
-impl Clone for Inp {
-    #[verifier::external_body]
-    fn clone(&self) -> (r: Inp)
-        ensures r == *self
-    { unimplemented!() }
-}
-
 /// x is in the set stored under k
 pub open spec fn has(m: std::collections::BTreeMap<u32, RoaringBitmap>, k: u32, x: u32) -> bool {
     m@.contains_key(k) && m@[k]@.contains(x)
